@@ -145,6 +145,7 @@ package parser
 //@   safety
 //@   requires scanWf(s)
 //@   ensures [stays-inside] scanStep(s, old(s.srcPos))
+//@   ensures [only-after-a-slash] result ==> ch == 47
 //@   modifies s.srcPos, s.line, s.char
 
 //@ func (*Scanner).isLineCommentRune
@@ -152,6 +153,7 @@ package parser
 //@   safety
 //@   requires scanWf(s)
 //@   ensures [stays-inside] scanStep(s, old(s.srcPos))
+//@   ensures [only-after-a-hyphen] result ==> ch == 45
 //@   modifies s.srcPos, s.line, s.char
 
 //@ func (*Scanner).scanComment
